@@ -206,6 +206,15 @@ func (r *Report) Finish() int {
 			}
 		}
 	}
+	// developer aid: dump every obligation key with its verdict (used to compare runs for determinism)
+	if dir := os.Getenv("GOSQLX_SA_KEYS"); dir != "" {
+		var sb strings.Builder
+		for _, o := range r.obs {
+			fmt.Fprintf(&sb, "%s\t%v\n", o.FullKey(), o.Status)
+		}
+		_ = os.MkdirAll(dir, 0o755)
+		_ = os.WriteFile(filepath.Join(dir, r.Prop+".keys"), []byte(sb.String()), 0o644)
+	}
 	for _, f := range r.floors {
 		if f.got < f.min {
 			r.Fatal("rule %s analysed %d %s, fewer than the %d confirmed by hand: anchors moved or the rule went blind", f.rule, f.got, f.what, f.min)
